@@ -65,7 +65,7 @@ fn compare(parent: &EnergyPerformance, child: &EnergyPerformance, k: f32, cfg: &
         let ct = child.balance.we.b.tot() as f64;
         if pt > 1e-3 * mag && ct > 1e-3 * mag {
             out.nontrivial = true;
-            if !(child.rer as f64 >= parent.rer as f64 - 1e-4) {
+            if !(child.rer as f64 >= parent.rer as f64 - (1e-4 + 2.0 * t / pt.min(ct))) {
                 out.viol("rer_not_lower", &feats, cfg, format!("with extra PV rer={}", child.rer), format!(">= without rer={}", parent.rer));
             }
             if child.rer > parent.rer {
